@@ -39,7 +39,9 @@ func Stub(fullFuncName string)               { panic("sym") } // replace a calle
 func SpyCount(fullFuncName string) int                { panic("sym") } // calls of a stubbed function on this path
 func SpyArgZ(fullFuncName string, call, arg int) Z    { panic("sym") } // numeric argument (0 = receiver)
 func SpyArgBool(fullFuncName string, call, arg int) bool { panic("sym") }
-func SpyErrNil(fullFuncName string, call int) bool    { panic("sym") } // did the stub return a nil error
+func SpyErrNil(fullFuncName string, call int) bool    { panic("sym") }
+// did the stub return a nil error
+func SpyResZ(fullFuncName string, call, res int) Z { panic("sym") } // numeric result number res of the stub's call
 func StubMonotone(fullFuncName string, arg, result int) { panic("sym") } // stub that is non-decreasing in argument arg (0 = receiver) for result index
 func Note(assumption string)                { panic("sym") } // echoed under assumptions in the evidence file
 
